@@ -761,7 +761,10 @@ int process_patch(const Options& options)
             // NOTE: we check for file size for the degenerate case that the file is a removal, but has nothing left.
             if (options.remove_empty_files == Options::OptionalBool::Yes && patch.operation == Operation::Delete) {
                 if (tmp_out_file.size() == 0) {
-                    if (!options.dry_run) {
+                    // NOTE: only a patch which was applied removes the file. If it was skipped or failed to apply then
+                    //       there was nothing in the file in the first place (if it exists at all), and so it stays.
+                    const bool was_applied = !result.was_skipped && result.failed_hunks == 0;
+                    if (!options.dry_run && was_applied) {
                         if (should_backup)
                             backup.make_backup_for(output_file);
                         if (filesystem::exists(output_file))
